@@ -977,6 +977,17 @@ func (j *judge) respComplete(r *ReqRec) {
 			completedByMe = true
 		}
 	}
+	// the decision is judged against the STORED promise at some committed state of the request window (not
+	// against the promise the response itself carries, which a stale answer would make self-consistent)
+	stored := func(pred func(row core.Row) bool) bool {
+		return j.existsSnap(r, func(s core.Snapshot) bool {
+			row, ok := s["promises"][cr.Id]
+			return ok && row.I("state") != pPending && pred(row)
+		})
+	}
+	keyMatch := func(row core.Row) bool {
+		return cr.IdempotencyKey != nil && !row.Null("idempotency_key_for_complete") && row.S("idempotency_key_for_complete") == string(*cr.IdempotencyKey)
+	}
 	switch {
 	case status == t_api.StatusCreated:
 		if !completedByMe {
@@ -993,10 +1004,10 @@ func (j *judge) respComplete(r *ReqRec) {
 			j.add("C03", "R2", "", "%s acknowledged (200) without a promise", r)
 			return
 		}
-		keyMatch := cr.IdempotencyKey != nil && p.IdempotencyKeyForComplete != nil && *p.IdempotencyKeyForComplete == *cr.IdempotencyKey
-		timedout := !cr.Strict && p.State == promise.Timedout
-		if !timedout && !(keyMatch && !(cr.Strict && p.State != cr.State)) {
-			j.add("C03", "R2", "", "%s acknowledged (200) although the promise (%v) neither carries the request's completion key (in the requested state if strict) nor is a timed-out promise completed non-strictly", r, p)
+		if !stored(func(row core.Row) bool {
+			return (!cr.Strict && row.I("state") == pTimedout) || (keyMatch(row) && !(cr.Strict && row.I("state") != int64(cr.State)))
+		}) {
+			j.add("C03", "R2", "", "%s acknowledged (200, promise %v) although at no committed state of its window did the stored promise carry the request's completion key (in the requested state if strict) or was it a timed-out promise completed non-strictly", r, p)
 		}
 	case status == t_api.StatusPromiseNotFound:
 		if !j.existsSnap(r, func(s core.Snapshot) bool { _, ok := s["promises"][cr.Id]; return !ok }) {
@@ -1010,16 +1021,26 @@ func (j *judge) respComplete(r *ReqRec) {
 			j.add("C03", "R3", "", "%s refused (%d) with promise %v", r, status, p)
 			return
 		}
-		want := map[promise.State]t_api.StatusCode{promise.Resolved: t_api.StatusPromiseAlreadyResolved, promise.Rejected: t_api.StatusPromiseAlreadyRejected, promise.Canceled: t_api.StatusPromiseAlreadyCanceled, promise.Timedout: t_api.StatusPromiseAlreadyTimedout}[p.State]
-		if status != want {
-			j.add("C03", "R3", "", "%s refused with status %d for a promise in state %s", r, status, p.State)
+		want := map[t_api.StatusCode]int64{t_api.StatusPromiseAlreadyResolved: 2, t_api.StatusPromiseAlreadyRejected: 4, t_api.StatusPromiseAlreadyCanceled: 8, t_api.StatusPromiseAlreadyTimedout: 16}[status]
+		if want == 0 {
+			j.add("C03", "R3", "", "%s refused with status %d", r, status)
+			return
 		}
-		keyMatch := cr.IdempotencyKey != nil && p.IdempotencyKeyForComplete != nil && *p.IdempotencyKeyForComplete == *cr.IdempotencyKey
-		if keyMatch && !(cr.Strict && p.State != cr.State) {
-			j.add("C03", "R2", "", "%s repeats the completion key the promise carries but was refused (%d)", r, status)
-		}
-		if !cr.Strict && p.State == promise.Timedout {
-			j.add("C03", "R2", "", "%s: non-strict completion of a timed-out promise must be acknowledged, got %d", r, status)
+		// justified if some committed state holds the promise completed in the state the status names and the
+		// request is not one that must be acknowledged there
+		if !stored(func(row core.Row) bool {
+			if row.I("state") != want {
+				return false
+			}
+			if keyMatch(row) && !(cr.Strict && row.I("state") != int64(cr.State)) {
+				return false // repeats the key the promise carries: must be acknowledged
+			}
+			if !cr.Strict && row.I("state") == pTimedout {
+				return false // non-strict completion of a timed-out promise: must be acknowledged
+			}
+			return true
+		}) {
+			j.add("C03", "R3", "", "%s refused with %d (promise %v) but at no committed state of its window was the stored promise in that state with a key the request does not match", r, status, p)
 		}
 	}
 }
@@ -1033,9 +1054,20 @@ func (j *judge) respRegistration(r *ReqRec, status t_api.StatusCode, p *promise.
 		return
 	}
 	snap := j.s.Snaps[r.ResSnap]
-	_, cbThere := snap["callbacks"][cid]
-	_, taskThere := snap["tasks"][cid]
-	if p.State == promise.Pending && !cbThere && !taskThere {
+	cbRow, cbThere := snap["callbacks"][cid]
+	tkRow, taskThere := snap["tasks"][cid]
+	// the stored registration / task must be THIS pair's: derived ids of different pairs can coincide
+	// ("a" + "b:c" and "a:b" + "c" both give __resume:a:b:c), then the second pair is silently dropped
+	collision := false
+	if cbThere && cbRow.S("promise_id") != pid {
+		cbThere, collision = false, true
+	}
+	if taskThere && !strings.Contains(tkRow.S("mesg"), `"`+pid+`"`) {
+		taskThere, collision = false, true
+	}
+	if p.State == promise.Pending && !cbThere && !taskThere && collision {
+		j.add("C05", "J3", "C05:derived-id-collision", "%s acknowledged (%d) and reports promise %s pending, but the registration stored under %s belongs to another awaiting/awaited pair: this one is dropped", r, status, pid, cid)
+	} else if p.State == promise.Pending && !cbThere && !taskThere {
 		j.add("C05", "J3", "C05:registration-lost-to-concurrent-completion", "%s acknowledged (%d) and reports promise %s pending, but no registration %s is stored and no task was created for it: the caller waits for a wake-up that cannot come", r, status, pid, cid)
 	}
 	if status == t_api.StatusCreated {
@@ -1314,6 +1346,44 @@ func (j *judge) judgeDispatch() {
 		for root, n := range roots {
 			if n > 1 {
 				j.add("C08", "B3", "", "cycle %s dispatched %d tasks of root promise %s", inst, n, root)
+			}
+		}
+		// B4: the cycle's commit books every hand-off on the task it belongs to: success => enqueued, failure =>
+		// attempt+1 (retried later), notification => finished -- provided the row is still the (init, counter) that was sent
+		var commit *TxRec
+		for _, tx := range j.txsBy[inst] {
+			if !tx.ReadOnly && tx.Fault == "" {
+				commit = tx
+			}
+		}
+		if commit != nil {
+			for _, sd := range j.sends[inst] {
+				if sd.Seq > commit.Seq {
+					continue
+				}
+				id := sd.Sub.Task.Id
+				b, ok := commit.Pre["tasks"][id]
+				a := commit.Post["tasks"][id]
+				if !ok || a == nil || b.I("state") != tInit || b.I("counter") != int64(sd.Sub.Task.Counter) || b.I("timeout") <= commit.Dispatch {
+					continue
+				}
+				if p, ok := commit.Post["promises"][b.S("root_promise_id")]; ok && p.I("state") != pPending && a.I("state") == tDone {
+					continue // finished together with its promise in the meantime
+				}
+				switch {
+				case mesgType(b) == "notify":
+					if a.I("state") != tDone {
+						j.add("C08", "B4", "", "notification %s was handed off by %s (%s) but is not finished by the cycle's commit: %s", id, inst, sd.Outcome, core.RowString(a))
+					}
+				case sd.Outcome == "success":
+					if a.I("state") != tEnqueued {
+						j.add("C08", "B4", "", "task %s was handed off successfully by %s but the cycle's commit left it %s (not enqueued)", id, inst, core.RowString(a))
+					}
+				default:
+					if a.I("state") != tInit || a.I("attempt") != b.I("attempt")+1 {
+						j.add("C08", "B4", "", "hand-off of task %s failed (%s) in %s but the cycle's commit left it %s (want init, attempt+1: to be retried)", id, sd.Outcome, inst, core.RowString(a))
+					}
+				}
 			}
 		}
 	}
